@@ -631,6 +631,49 @@ def s11(rep):
                           "constant and an assignment whose declared types differ syntactically are then accepted" % (msg, why))
 
 
+S13_REPORTERS = (
+    "operatorErrMsg", "terrorApplyCondition", "terrorApplyNotAnalyzed", "terrorAssign", "terrorCoerceTo", "terrorIdCondition",
+    "terrorImplicitSetBang", "terrorMeaningsOutOfScope", "terrorNoMeaningForId", "terrorNoMeaningForLit", "terrorNotEnoughExports",
+    "terrorNotUniqueMeaning", "terrorNotUniqueType", "terrorSetBang", "terrorTypeConstFailed", "bputFirstExitTypes")
+S13_MESSAGES = ("comsgError", "comsgNError", "comsgFatal", "comsgWarning", "comsgNWarning")
+
+
+def s13(rep):
+    """A type error is found in one phase (tibup/titdn mark the node) and told to the user in another: terror() looks at the
+    marked node and calls the reporter for its kind.  The message the reporter sends is also the only thing that counts the
+    error -- the phases that found it have already returned, and the driver looks at the count.  A reporter that returns early
+    (no details wanted, nothing to format) therefore turns the rejection into an acceptance: exit status 0 and the object files
+    written.  The reporters listed (confirmed on today's tree: every path from entry to exit passes a comsgError / comsgWarning
+    or a call of another of them) must keep that shape."""
+    f = common.extract("terror.c", all_trees=True, all_cfg=True)
+    present = [n for n in S13_REPORTERS if n in f.funcs and "body" in f.funcs[n]]
+    rep.floor("type-error reporters of terror.c", len(present), 14)
+    always = set()
+    pending = list(present)
+    escapes = {}
+    for _ in range(4):
+        for name in list(pending):
+            cfg = common.CFG(f.funcs[name])
+            isr = lambda e: e["k"] == "CallExpr" and (e.get("callee") in S13_MESSAGES or e.get("callee") in always)
+            p = cfg.path_avoiding(cfg.entry, None, isr) if cfg.events(isr) else [cfg.entry]
+            if p is None:
+                always.add(name)
+                pending.remove(name)
+                escapes.pop(name, None)
+            else:
+                escapes[name] = p
+    for name in present:
+        key = "reporter-always-reports:%s" % name
+        if name in always:
+            rep.ok("S13", key)
+        else:
+            rep.violation("S13", key, "terror.c:%d (%s)" % (f.funcs[name]["l"], name),
+                          "%s can return without sending its message: the message is what counts the type error, so on that path "
+                          "the ill-typed program is accepted -- no diagnostic, exit status 0, .ao/.c written (for the "
+                          "missing-exports reporter: whenever details are switched off, -M1/-M0/-Mno-details)" % name,
+                          detail={"cfg_path": escapes[name][:10]})
+
+
 def s12(rep):
     """A call is matched against a parameter list by tfSatAsMulti: a loop over the PARAMETERS finds for each one its argument
     (by position or by `name == value` keyword) or its default.  Arguments that no parameter took -- too many positional ones, or
@@ -704,6 +747,7 @@ def run(tier, only=None):
     s8(rep)
     s11(rep)
     s12(rep)
+    s13(rep)
     from . import variant_dispatch
     variant_dispatch.report_absyn(rep, "S10", ["ti_bup.c", "ti_tdn.c", "ti_sef.c", "scobind.c", "abcheck.c"], 180)
     from . import selfcompare
